@@ -5,6 +5,21 @@ COMMON_NOTE = ("Trusted base: Lean 4.33 kernel; axioms ⊆ {propext, Classical.c
                "generated tables (harness/gen_tables.py). ")
 
 CLAIMED = {
+    "C03": {
+        "text": "Theorems (Lean; process death = any prefix of the operation's syscall trace, for a commit writing ANY number of files): "
+                "crash_pre — before the pointer's rename the pointer path is unchanged (pre-state); crash_foreign_untouched — at every prefix "
+                "every path the commit does not own is as visible as before (all earlier snapshots stay readable); crash_post — from the "
+                "pointer's rename on every file the new version references is present with full content (post-state readable); "
+                "crash_lower_atomic — within one atomic write the target changes only at the rename; the literally-unchanged variant is refuted "
+                "and kept as a theorem. Oracle: REAL crash images — the table directory copied before EVERY os-level call the library makes "
+                "(temp creation, write, fsync, close, rename, unlink, directory fsync) during create / append / delete-files / expire / "
+                "delete-snapshot / collect, plus truncated-temp-file variants inside the parquet write; each image re-read by the independent "
+                "reader and the library, appended to, and collected (only unreachable leftovers may go, none may stay).",
+        "design_ref": "§6 C03",
+        "note": "Process death only (power loss is C16); rename atomicity and flock release on death are kernel contracts; a death inside pyarrow's "
+                "C++ writer is represented by truncated temp files.",
+        "technique": "Lean 4 theorems over syscall-trace prefixes + exhaustive real crash images",
+    },
     "C16": {
         "text": "Theorems (Lean, power-loss model: only fsync'ed content and directory entries persisted by a directory fsync survive): "
                 "atomic_write_durable — after temp/write/fsync/rename/dir-fsync the target is durable; durable_stable; lower_atomic; "
